@@ -64,6 +64,7 @@ type Config struct {
 	MaxValidators  uint32
 	FullPipeline   bool // block boundary = ModuleManager End/BeginBlock, slash = StakingKeeper.Slash
 	ExtraNativeDel []int64 // additional genesis native stake multipliers (unused when nil)
+	ExtraDenoms    []string // denoms whose balances snapshots read even when no asset record / queue entry names them
 }
 
 // DefaultConfig is the module-only world used by most properties.
@@ -144,7 +145,7 @@ func mustInt(s string) math.Int {
 // New builds a world. It panics on any setup error: a world that cannot be
 // built is a harness failure, never a property violation.
 func New(cfg Config) *World {
-	w := &World{Cfg: cfg, Log: &CapLogger{}}
+	w := &World{Cfg: cfg, Log: &CapLogger{}, ExtraDenoms: cfg.ExtraDenoms}
 	db := dbm.NewMemDB()
 	app := allianceapp.New(w.Log, db, nil, true, map[int64]bool{}, allianceapp.DefaultNodeHome, 0, allianceapp.EmptyAppOptions{}, baseapp.SetChainID(ChainID))
 	w.App = app
